@@ -22,6 +22,7 @@ func init() {
 					Type: "symbol",
 					Text: "The name of the block to return from.",
 				},
+				{Name: "&optional"},
 				{
 					Name: "result",
 					Type: "object",
@@ -43,7 +44,7 @@ type ReturnFrom struct {
 
 // Call the function with the arguments provided.
 func (f *ReturnFrom) Call(s *slip.Scope, args slip.List, depth int) slip.Object {
-	slip.CheckArgCount(s, depth, f, args, 1, -1)
+	slip.CheckArgCount(s, depth, f, args, 1, 2)
 	rr := slip.ReturnResult{}
 	switch ta := args[0].(type) {
 	case nil:
